@@ -134,7 +134,7 @@ def _good_value(rng, vt):
     if vt == 'intstr':
         return rng.choice([2, 't'])
     if vt == 'intdict':
-        return rng.choice([1, 5, {'k': 2}, {}])
+        return rng.choice([1, 5, {'m': 2}, {}])
     if vt == 'dict':
         # a mapping that is the VALUE of a leaf port (a plain dict, or a dict subclass)
         return rng.choice([{'@LEAF': True, 'p': 1}, {'@LEAF': True, '@OD': True, 'p': 1, 'q': 's'}, {'@LEAF': True}])
@@ -155,7 +155,7 @@ def _bad_value(rng, vt):
     if vt == 'intstr':
         return rng.choice([None, '@A'])
     if vt == 'intdict':
-        return rng.choice(['s', {'k': 's'}, None, {'k': {'m': 't'}}])
+        return rng.choice(['s', {'m': 's'}, None, {'m': {'n': 't'}}])
     if vt == 'dict':
         return rng.choice([1, 's', None])
     if vt == 'OD':
